@@ -399,7 +399,10 @@ func (st *c32state) genLine(c *Ctx, closed *bool, bigReads bool) string {
 		}
 		return ""
 	case r < 94:
-		if k := st.inboxFrames(s); k > 0 {
+		// at most one effective modification per inbox: the driver's toy AEAD is only guaranteed to
+		// reject SINGLE-byte changes of a frame (two flips can cancel in its checksum; secretbox
+		// rejects both) — and after the first decrypt error the direction is dead anyway
+		if k := st.inboxFrames(s); k > 0 && !st.corrupt[s] {
 			x := 1 << uint(c.Rng.Intn(8))
 			if c.Rng.Intn(6) == 0 {
 				x = 0 // control: no change
